@@ -35,6 +35,9 @@ def make_config(rng, profile, tier):
     cfg['ident'] = rng.choice([1e-5, 1e-5, 10.0, 0.0])      # buggify: flips the "not identified" branch of the reports
     cfg['only_robust'] = rng.random() < 0.5
     cfg['max_iter'] = rng.choice([60, 60, 60, 1])
+    if cfg['family'] == 'quad' and cfg['K'] <= 10 and rng.random() < 0.3:
+        # an estimate of very small magnitude (a cost coefficient per cent, say): every report still gives its value
+        cfg['coef'][0] = 5.12e-05
     # database names: anything the file system accepts
     cfg['dbname'] = rng.choice(['d', 'data set', 'swiss', 'survey:2020', 'what?', 'a*b', 'x|y', 'q<1>'])
     return cfg
